@@ -373,3 +373,33 @@ prop("C12",
      trusted_base=[], assumptions=[],
      unverified_surroundings=["deduplicate() after inlining (C05/C13 "
                               "contracts)"])
+
+prop("C14",
+     level="proof",
+     level_text=(
+         "Deductive proof per emitted program family: the ast statements the "
+         "real NumpyCodegenMapper emits are interpreted under NumPy's "
+         "semantics (np.<f> := the pytato constructor proved in C01-C03 to "
+         "denote NumPy's definition) and the resulting expression is proved "
+         "to denote the same pointwise function as the source program for "
+         "ALL axis lengths, shifts, slice parameters and indices; every "
+         "array-module attribute referred to exists in the installed NumPy; "
+         "unsupported constructs raise NotImplementedError; argument "
+         "collection / pre-binding of wrapped data follows its contract."),
+     level_note=(
+         "The meaning of emitted NumPy calls rests on C01/C02/C03 (pytato "
+         "constructors = NumPy definitions) -- a composition, stated here. "
+         "ast.unparse/exec of the final module text is CPython (trusted); "
+         "the statements are taken before unparsing. dtype of results is not "
+         "part of this proof (exact arithmetic)."),
+     technique="contract-based deductive verification: symbolic execution of "
+               "the real emitter, emitted AST interpreted under a verified "
+               "NumPy model, denotational equality VCs (z3)",
+     design_ref="DESIGN.md §6 C14",
+     explanation="see contracts/c14_numpy.py",
+     structural_bound="every node kind the target supports at rank<=3, every "
+                      "slice None-pattern, all API-produced index lambdas",
+     trusted_base=["ast.unparse + exec (CPython)", "C01/C02/C03 as the NumPy "
+                   "model"],
+     assumptions=["exact arithmetic; dtypes not compared"],
+     unverified_surroundings=["pytato.target.python.jax (needs JAX)"])
